@@ -31,6 +31,64 @@ HAND_RUNNABLE = {"h_pipeline", "h_tick_fold", "h_tick_cycle", "h_tee_state_and_t
 NET_OPS = {"send12", "send21", "bcast", "gather"}
 
 
+def _S(e, l, o):
+    return {"k": "stream", "e": e, "l": l, "b": "B" if l in ("t1", "t2") else "U", "o": o}
+
+
+def _V(k, e, l):
+    return {"k": k, "e": e, "l": l, "b": "B" if l in ("t1", "t2") else "U", "o": "T"}
+
+
+_NONE = {"k": "none", "e": "", "l": "", "b": "", "o": ""}
+
+
+def _term(*stmts):
+    t = [{"op": "in1", "a": [], "ty": _S("i", "p1", "T")}, {"op": "in2", "a": [], "ty": _S("i", "p1", "T")}]
+    for op, a, ty in stmts:
+        t.append({"op": op, "a": list(a), "ty": ty})
+    return t
+
+
+# The hand-written programs of hv_prog_flows/src/hand.rs as HydroProg terms (calibration: the
+# trace spec checks that WellTyped agrees with the stated expectation of each).
+HAND_TERMS = {
+    "h_pipeline": _term(("map", [1], _S("i", "p1", "T")), ("filter", [3], _S("i", "p1", "T")),
+                        ("flatmap", [4], _S("i", "p1", "T")), ("out", [5], _NONE)),
+    "h_tick_fold": _term(("batch", [1], _S("i", "t1", "T")), ("fold", [3], _V("single", "i", "t1")),
+                         ("all_ticks", [4], _S("i", "p1", "T")), ("out", [5], _NONE)),
+    "h_tick_cycle": _term(("tcycle", [], _S("i", "t1", "T")), ("batch", [1], _S("i", "t1", "T")),
+                          ("chain", [3, 4], _S("i", "t1", "T")), ("map", [5], _S("i", "t1", "T")),
+                          ("filter", [6], _S("i", "t1", "T")), ("tcomplete", [3, 7], _NONE),
+                          ("all_ticks", [7], _S("i", "p1", "T")), ("out", [9], _NONE)),
+    "h_tee_state_and_tick": _term(("map", [1], _S("i", "p1", "T")), ("fold", [3], _V("single", "i", "p1")),
+                                  ("batch", [3], _S("i", "t1", "T")), ("snapshot", [4], _V("single", "i", "t1")),
+                                  ("cross_single", [5, 6], _S("kv", "t1", "T")), ("all_ticks", [7], _S("kv", "p1", "T")),
+                                  ("out", [8], _NONE)),
+    "h_forward_ref": _term(("fwd", [], _S("i", "p1", "N")), ("merge", [1, 3], _S("i", "p1", "N")),
+                           ("map", [4], _S("i", "p1", "N")), ("map", [2], _S("i", "p1", "T")),
+                           ("weaken", [6], _S("i", "p1", "N")), ("complete", [3, 7], _NONE),
+                           ("assume", [5], _S("i", "p1", "T")), ("out", [9], _NONE)),
+    "h_network_cycle": _term(("fwd", [], _S("i", "p1", "N")), ("merge", [1, 3], _S("i", "p1", "N")),
+                             ("filter", [4], _S("i", "p1", "N")), ("send12", [5], _S("i", "p2", "N")),
+                             ("map", [6], _S("i", "p2", "N")), ("send21", [7], _S("i", "p1", "N")),
+                             ("complete", [3, 8], _NONE), ("assume", [5], _S("i", "p1", "T")), ("out", [10], _NONE)),
+    "h_singleton_ref": _term(("batch", [2], _S("i", "t1", "T")), ("fold", [3], _V("single", "i", "t1")),
+                             ("batch", [1], _S("i", "t1", "T")), ("map_ref", [5, 4], _S("i", "t1", "T")),
+                             ("all_ticks", [6], _S("i", "p1", "T")), ("out", [7], _NONE)),
+    "h_keyed_fold": _term(("mkkv", [1], _S("kv", "p1", "T")), ("batch", [3], _S("kv", "t1", "T")),
+                          ("kfold", [4], _S("kv", "t1", "N")), ("all_ticks", [5], _S("kv", "p1", "N")),
+                          ("assume", [6], _S("kv", "p1", "T")), ("out", [7], _NONE)),
+    "h_cluster_roundtrip": _term(("bcast", [1], _S("i", "c1", "T")), ("map", [3], _S("i", "c1", "T")),
+                                 ("gather", [4], _S("i", "p1", "N")), ("assume", [5], _S("i", "p1", "T")),
+                                 ("out", [6], _NONE)),
+    # ill-formed: the forward reference (3) is completed with 6, which depends on it synchronously
+    "n_forward_ref_sync_cycle": _term(("fwd", [], _S("i", "p1", "N")), ("merge", [1, 3], _S("i", "p1", "N")),
+                                      ("filter", [4], _S("i", "p1", "N")), ("map", [5], _S("i", "p1", "N")),
+                                      ("complete", [3, 6], _NONE), ("assume", [5], _S("i", "p1", "T")),
+                                      ("out", [8], _NONE)),
+}
+
+
 def runnable(term):
     """Single-location programs (no network hop): the emitted function needs only the two input
     streams and the output callback, so the harness can instantiate it and run a few ticks."""
